@@ -107,6 +107,7 @@ func (o Outcome) String() string {
 type Sched struct {
 	mu      sync.Mutex
 	active  bool
+	started atomic.Bool // Run has begun: spawns park their parent from here on
 	parked  []*parked
 	names   map[uint64]string
 	spawn   map[string]int
@@ -326,6 +327,10 @@ func Y(site, kind string) {
 	if s == nil || !s.active {
 		return
 	}
+	if kind == "spawned" && (!s.started.Load() || Name() == "main") {
+		// a spawn made by the harness itself while it sets a run up
+		return
+	}
 	s.park(site, kind, nil)
 }
 
@@ -537,6 +542,7 @@ var stallQuanta = []time.Duration{time.Millisecond, 30 * time.Millisecond, 250 *
 
 // Run drives the bubble until stop() holds at quiescence.
 func (s *Sched) Run(stop func() bool, deadline time.Time, idleCut time.Duration) (out Outcome) {
+	s.started.Store(true)
 	s.t0 = time.Now()
 	defer func() { s.Elapsed += time.Since(s.t0) }()
 	s.lastProgress = s.t0
